@@ -132,6 +132,25 @@ theorem read_keeps (h h' : Heap) (t : GoSlice) (hv : Valid h t) (hk : Keeps h.ne
 theorem Keeps.weaken {n m : Nat} {a b : Heap} (h : Keeps n a b) (hm : m ≤ n) : Keeps m a b :=
   ⟨h.next, fun i hi => h.arr i (Nat.lt_of_lt_of_le hi hm)⟩
 
+theorem runScript_keeps (script : List (Nat × Str)) : ∀ (h : Heap) (opts : List GoSlice), (∀ s ∈ opts, Valid h s) →
+    Keeps h.next h (runScript h opts script).1 ∧ (∀ s ∈ (runScript h opts script).2, Valid (runScript h opts script).1 s) ∧
+      ∃ more, (runScript h opts script).2 = opts ++ more := by
+  induction script with
+  | nil => intro h opts hv; exact ⟨Keeps.refl _ _, hv, [], by simp [runScript]⟩
+  | cons st rest ih =>
+    intro h opts hv
+    obtain ⟨i, d⟩ := st
+    obtain ⟨k, cv, _, _⟩ := childLoaders_spec h (opts.getD i none) d
+    have hv' : ∀ s ∈ opts ++ [(childLoaders h (opts.getD i none) d).2], Valid (childLoaders h (opts.getD i none) d).1 s := by
+      intro s hs
+      rcases List.mem_append.mp hs with hs | hs
+      · exact (read_keeps h _ s (hv s hs) k).2.2
+      · simp only [List.mem_singleton] at hs; subst hs; exact cv
+    obtain ⟨k2, v2, more, hm⟩ := ih _ _ hv'
+    simp only [runScript]
+    refine ⟨k.trans (k2.weaken k.next), v2, (childLoaders h (opts.getD i none) d).2 :: more, ?_⟩
+    rw [hm]; simp
+
 /-- child `i` reads `base` followed by the local loader of directory `i` -/
 def EachReads (h : Heap) (base : List (Option Loader)) : List GoSlice → List Str → Prop
   | [], [] => True
